@@ -31,7 +31,9 @@ RULE = ("every tree of U(n) (n up to the tier bound) x {as generated, reversed/s
         "encoding state) on which ALL taxon pairs / node pairs / non-empty taxon subsets / query routes are evaluated "
         "(`evaluations` counts the single queries), or one generating tree handed to NJ / UPGMA (every rooted binary "
         "tree x every {1,2} length assignment; every ranked ultrametric tree x height pattern; directly and through "
-        "each CSV write/read route); non-trivial = the tree has >= 3 leaves")
+        "each CSV write/read route); non-trivial = the tree has >= 3 leaves; plus a 'large representatives' layer that is "
+        "exhaustive only over the stated set of 18 big trees in bounds()['large_representatives'] (ladders to 65 tips, balanced "
+        "to 64, stars to 100, a broom) with the same oracles and a stated family of subsets / pairs")
 ASSUMPTIONS = [
     "reference distances/edge counts/turning nodes are computed from snapshot paths (common prefix); live nodes are "
     "identified by their path through Node._child_nodes",
@@ -69,6 +71,22 @@ NONDYADIC = "nd"
 
 
 def bounds(tier):
+    b = _bounds(tier)
+    b["large_representatives"] = {
+        "trees": list(BIG_NAMES), "labels": "t000..tNNN", "nj_upgma_on": list(BIG_ALGO),
+        "per_tree": ("distance matrix: all ordered taxon pairs (cyclic 1-2-3 lengths rooted, partial-None lengths unrooted; "
+                     "path edges up to 40 tips), summaries on the full set and the subset family; node distance matrix: all "
+                     "ordered node pairs; treemeasure.patristic_distance on the pair family; Tree.mrca: subset family x 3 routes "
+                     "x {current, refresh, stale} x namespaces {exact, reversed, extra_low}; one CSV round trip; NJ ({1,2} cyclic "
+                     "lengths, edge counts, via CSV) and UPGMA (two rankings, distinct integer / quarter heights, via CSV; textbook "
+                     "average linkage on pairwise distinct dyadic lengths) on the binary trees up to 33 tips"),
+        "subset_family": "first, last, middle, {first,last}, {first,second}, last two, {middle,last}, every other (both phases), "
+                         "all but first, all but last, all, first half, second half, taxa 9+10, 31+32, 63+64 where present",
+        "exhaustive_over": "this stated set only"}
+    return b
+
+
+def _bounds(tier):
     if tier == "quick":
         return {"max_leaves": 5, "exhaustive_lengths_up_to": 4, "subset_filters_up_to": 5,
                 "nj_all_12_lengths_up_to": 5, "nj_pattern_leaves": 6, "upgma_ranked_up_to": 6,
@@ -211,6 +229,146 @@ def taxa_of(ns):
 
 
 # ---------------------------------------------------------------------------
+# large representatives (a stated finite set; see bounds()["large_representatives"])
+
+BIG_NAMES = (["ladderL-%d" % k for k in (12, 17, 33, 40, 65)] + ["ladderR-%d" % k for k in (12, 17, 33, 40, 65)] +
+             ["balanced-%d" % k for k in (16, 32, 64)] + ["star-%d" % k for k in (12, 33, 40, 100)] + ["broom-20-40"])
+BIG_ALGO = ["ladderL-12", "ladderL-17", "ladderL-33", "ladderR-12", "ladderR-17", "ladderR-33", "balanced-16", "balanced-32"]
+
+
+def big_shape(name):
+    parts = name.split("-")
+    kind, k = parts[0], int(parts[1])
+    if kind == "ladderL":
+        s = 0
+        for i in range(1, k):
+            s = (s, i)
+        return s
+    if kind == "ladderR":
+        s = k - 1
+        for i in range(k - 2, -1, -1):
+            s = (i, s)
+        return s
+    if kind == "balanced":
+        def rec(lo, hi):
+            if hi - lo == 1:
+                return lo
+            mid = (lo + hi) // 2
+            return (rec(lo, mid), rec(mid, hi))
+        return rec(0, k)
+    if kind == "star":
+        return tuple(range(k))
+    if kind == "broom":
+        m = int(parts[2])
+        s = tuple(range(k, k + m))
+        for i in range(k - 1, -1, -1):
+            s = (i, s)
+        return s
+    raise ValueError(name)
+
+
+def resolve_shape(x):
+    if isinstance(x, str):
+        return big_shape(x)
+    return tup(x)
+
+
+def resolve_lens(x, shape):
+    """a list (pre-order), or the name of a pattern"""
+    if not isinstance(x, str):
+        return list(x)
+    k = nnodes(shape)
+    if x == "cyc123":
+        return [[1, 2, 3][i % 3] for i in range(k)]
+    if x == "partial":
+        return [None if i % 3 == 1 else [2, 1, 3][i % 3] for i in range(k)]
+    if x == "cyc12":
+        return [None] + [[1, 2][i % 2] for i in range(1, k)]
+    if x == "unit":
+        return [1] * k
+    if x == "distinct":     # pairwise different dyadic lengths: no ties for average linkage on non-ultrametric input
+        return [None] + [1 + ((i * 37) % 64) / 64.0 + (i // 64) for i in range(1, k)]
+    raise ValueError(x)
+
+
+def resolve_ranks(x, shape):
+    """ranks of the internal nodes in pre-order: a list, or "postorder" (children before parents, left
+    subtree first) / "levels" (by height level, then pre-order position)"""
+    if not isinstance(x, str):
+        return list(x)
+    internal = [p for p in U.paths(shape) if not isinstance(U.at(shape, p), int)]
+    if x == "postorder":
+        key = {}
+        counter = [0]
+
+        def rec(s2, p):
+            if isinstance(s2, int):
+                return
+            for i, c in enumerate(s2):
+                rec(c, p + (i,))
+            counter[0] += 1
+            key[p] = counter[0]
+        rec(shape, ())
+        return [key[p] for p in internal]
+    if x == "levels":
+        lev = {}
+
+        def rec2(s2, p):
+            if isinstance(s2, int):
+                return 0
+            v = 1 + max(rec2(c, p + (i,)) for i, c in enumerate(s2))
+            lev[p] = v
+            return v
+        rec2(shape, ())
+        order = sorted(internal, key=lambda p: (lev[p], p))
+        rk = dict((p, i + 1) for i, p in enumerate(order))
+        return [rk[p] for p in internal]
+    raise ValueError(x)
+
+
+def tlabels(n):
+    return ["t%03d" % i for i in range(n)]
+
+
+def case_labels(case):
+    return tlabels(case["n"]) if case.get("tl") else U.LABELS[:case["n"]]
+
+
+def subset_family(labels):
+    """representative subsets of a large taxon set"""
+    n = len(labels)
+    m = n // 2
+    fam = [[labels[0]], [labels[-1]], [labels[m]], [labels[0], labels[-1]], [labels[0], labels[1]], labels[-2:],
+           [labels[m], labels[-1]], labels[::2], labels[1::2], labels[1:], labels[:-1], list(labels), labels[:m], labels[m:],
+           [labels[9], labels[10]] if n > 10 else [labels[1], labels[2]],
+           [labels[31], labels[32]] if n > 32 else [labels[0], labels[2]],
+           [labels[63], labels[64]] if n > 64 else [labels[1], labels[-1]]]
+    out, seen = [], set()
+    for f in fam:
+        if tuple(f) not in seen and f:
+            seen.add(tuple(f))
+            out.append(list(f))
+    return out
+
+
+def pair_family(labels):
+    n = len(labels)
+    m = n // 2
+    idx = [(0, 0), (0, 1), (0, n - 1), (0, m), (m, n - 1), (n - 2, n - 1), (m, m + 1), (n - 1, n - 1)]
+    if n > 10:
+        idx.append((9, 10))
+    if n > 32:
+        idx.append((31, 32))
+    if n > 64:
+        idx.append((63, 64))
+    return [(labels[i], labels[j]) for i, j in idx]
+
+
+def short(text, k=160):
+    return text if len(text) <= k else text[:k] + "...[%d chars]" % len(text)
+
+
+# ---------------------------------------------------------------------------
 # length patterns (lists indexed by pre-order position; index 0 = seed edge)
 
 def patterns(k, n, b, drawing_tag):
@@ -249,10 +407,9 @@ def drawings(shape, n, b):
 # layer D: distance matrices on one tree
 
 def make_tree(case):
-    shape = tup(case["shape"])
-    n = case["n"]
-    labels = U.LABELS[:n]
-    sn = ref.mk(shape, lens=list(case["lens"]))
+    shape = resolve_shape(case["shape"])
+    labels = case_labels(case)
+    sn = ref.mk(shape, lens=resolve_lens(case["lens"], shape), labels=labels)
     ns, bit = build.make_namespace(labels, case.get("ns", "exact"))
     tree = build.build_tree((case["rooted"], sn), ns)
     return shape, labels, sn, ns, bit, tree
@@ -280,7 +437,7 @@ def check_pdm(case, ctx):
     ids = live_paths(tree)
     lone = R.n_nodes == 1
     refd = {}
-    text = ref.to_newick(sn)
+    text = short(ref.to_newick(sn))
     for l1 in labels:
         for l2 in labels:
             t1, t2 = tx[l1], tx[l2]
@@ -334,7 +491,7 @@ def check_pdm(case, ctx):
         if ok:
             g = sorted(got)
             if len(g) != len(want) or not all(same(x, y, exact) for x, y in zip(g, want)):
-                V("pdm.distances|%s" % ("weighted" if weighted else "unweighted"), "distances() = %r, distinct pairs give %r on %s" % (g, want, ref.to_newick(sn)))
+                V("pdm.distances|%s" % ("weighted" if weighted else "unweighted"), "distances() = %r, distinct pairs give %r on %s" % (short(repr(g)), short(repr(want)), short(ref.to_newick(sn))))
         ok, got = call(V, "pdm.sum_of_distances", pdm.sum_of_distances, is_weighted_edge_distances=weighted)
         if ok and not same(got, sum(want), False):
             V("pdm.sum_of_distances|value", "sum_of_distances = %r, want %r" % (got, sum(want)))
@@ -348,7 +505,9 @@ def check_pdm(case, ctx):
     # summaries
     filt = case.get("filters")
     groups = [None]
-    if filt:
+    if filt == "family":
+        groups += [s for s in subset_family(labels) if 2 <= len(s) < len(labels)]
+    elif filt:
         groups += [s for s in subsets(labels, 2) if len(s) < len(labels)]
     if n >= 2:
         for grp in groups:
@@ -388,17 +547,18 @@ def check_tm(case, ctx):
     """treemeasure.patristic_distance for every unordered pair: on a fresh, never encoded
     tree per call (default is_bipartitions_updated=False), and on an encoded tree with
     is_bipartitions_updated=True."""
-    shape = tup(case["shape"])
-    labels = U.LABELS[:case["n"]]
+    labels = case_labels(case)
     exact = case["ptag"] != NONDYADIC
     V = Viol(ctx, case)
-    sn0 = ref.mk(shape, lens=list(case["lens"]))
+    sn0 = make_tree(case)[2]
     R = RefIndex(sn0)
-    text = ref.to_newick(sn0)
+    text = short(ref.to_newick(sn0))
     # the refresh (encode_bipartitions) collapses the basal bifurcation of a tree that is not rooted
     feat = "|unrooted-basal-bifurcation" if (case["rooted"] is not True and len(sn0[3]) == 2) else ""
     q = 0
     pairs = [(a, b2) for i, a in enumerate(labels) for b2 in labels[i:]]
+    if case.get("pairs") == "family":
+        pairs = pair_family(labels)
     with warnings.catch_warnings():
         warnings.simplefilter("ignore")
         for l1, l2 in pairs:
@@ -439,7 +599,7 @@ def check_ndm(case, ctx):
     ids = live_paths(tree)
     nodes = live_nodes(tree)
     q = 0
-    text = ref.to_newick(sn)
+    text = short(ref.to_newick(sn))
     for p in R.order:
         for p2 in R.order:
             d, c, m, _ = R.between(p, p2)
@@ -470,7 +630,7 @@ def check_ndm(case, ctx):
         if ok:
             g = sorted(got)
             if len(g) != len(want) or not all(same(x, y, exact) for x, y in zip(g, want)):
-                V("ndm.distances|%s" % ("weighted" if weighted else "unweighted"), "distances() = %r, node pairs give %r on %s" % (g, want, ref.to_newick(sn)))
+                V("ndm.distances|%s" % ("weighted" if weighted else "unweighted"), "distances() = %r, node pairs give %r on %s" % (short(repr(g)), short(repr(want)), short(ref.to_newick(sn))))
     return q
 
 
@@ -525,7 +685,7 @@ def check_mrca(case, ctx):
     state = case["state"]
     V = Viol(ctx, case)
     q = 0
-    labels = U.LABELS[:n]
+    labels = case_labels(case)
     shared = None
     only = case.get("only")
     extra = {"extra_low": "_lo", "extra_high": "_hi"}.get(case.get("ns", "exact"))
@@ -537,7 +697,7 @@ def check_mrca(case, ctx):
             except Exception as e:
                 V("encode_bipartitions|exception|%s" % type(e).__name__, "preparing state %s raised %r" % (state, e))
                 return 1
-        for si, S in enumerate(subsets(labels)):
+        for si, S in enumerate(subset_family(labels) if case.get("subsets") == "family" else subsets(labels)):
             if only is not None and list(S) != list(only):
                 continue
             if shared is not None:
@@ -568,8 +728,8 @@ def check_mrca(case, ctx):
                 gp = "None" if got is None else live_paths(tree).get(id(got), "not-a-node-of-the-tree")
                 if gp != want:
                     feat = "single-taxon" if len(S) == 1 else ("whole-tree" if len(S) == n else "subset")
-                    V("Tree.mrca|node|%s|%s" % (state, feat), "mrca(%s=%r) on %s (rooted=%r, ns %s, state %s) is the node at %r; deepest node whose leaves include them all is at %r" % (
-                        route, list(S), ref.to_newick(snap, False), case["rooted"], case.get("ns", "exact"), state, gp, want))
+                    V("Tree.mrca|node|%s|%s" % (state, feat), "mrca(%s=%s) on %s (rooted=%r, ns %s, state %s) is the node at %r; deepest node whose leaves include them all is at %r" % (
+                        route, short(str(list(S))), short(ref.to_newick(snap, False)), case["rooted"], case.get("ns", "exact"), state, gp, want))
             # a taxon of the namespace that is on no leaf: no node has it
             if extra is not None and state != "stale":
                 q += 1
@@ -583,7 +743,7 @@ def check_mrca_start(case, ctx):
     """Tree.mrca(start_node=X) on rooted trees with a current encoding: every node X, every subset."""
     n = case["n"]
     V = Viol(ctx, case)
-    labels = U.LABELS[:n]
+    labels = case_labels(case)
     q = 0
     try:
         _, ns, bit, tree = _prepare(case)
@@ -737,6 +897,21 @@ def check_matrix_readback(V, p2, tag, labels, refd, exact, text):
     return q
 
 
+def check_csvmat(case, ctx):
+    """one CSV write/read of the matrix of a tree (no tree building afterwards)"""
+    shape, labels, sn, ns, bit, tree = make_tree(case)
+    V = Viol(ctx, case)
+    R = RefIndex(sn)
+    ok, pdm = call(V, "Tree.phylogenetic_distance_matrix", tree.phylogenetic_distance_matrix)
+    if not ok:
+        return 1
+    refd = dict(((a, b2), R.between(R.leafpath[a], R.leafpath[b2])[0]) for a in labels for b2 in labels)
+    p2 = via_csv(V, pdm, ns, CSV_ROUTES[case.get("route", 0)], labels)
+    if p2 is None:
+        return 1
+    return 1 + check_matrix_readback(V, p2, CSV_ROUTES[case.get("route", 0)][0], labels, refd, True, short(ref.to_newick(sn)))
+
+
 def judge_nj(V, t2, tag, labels, want_splits, text):
     probs = ref.wellformed(t2)
     if probs:
@@ -748,12 +923,12 @@ def judge_nj(V, t2, tag, labels, want_splits, text):
         return
     got, _ = ref.split_lengths(s2, False)
     if set(got) != set(want_splits):
-        V("nj_tree|topology|%s" % tag, "NJ tree %s does not have the unrooted splits of the generating tree %s" % (ref.to_newick(s2), text))
+        V("nj_tree|topology|%s" % tag, "NJ tree %s does not have the unrooted splits of the generating tree %s" % (short(ref.to_newick(s2), 400), text))
         return
     for k in want_splits:
         if not same(got[k], want_splits[k], False):
             V("nj_tree|edge-length|%s" % tag, "NJ tree %s: split %s has length %r, generating tree %s has %r" % (
-                ref.to_newick(s2), sorted(sorted(x) for x in k), got[k], text, want_splits[k]))
+                short(ref.to_newick(s2), 400), sorted(sorted(x) for x in k), got[k], text, want_splits[k]))
             return
     if r2 is not False:
         V("nj_tree|rooting|%s" % tag, "NJ tree is_rooted=%r (documented: unrooted)" % (r2,))
@@ -764,14 +939,14 @@ def check_nj(case, ctx):
     shape, labels, sn, ns, bit, tree = make_tree(case)
     V = Viol(ctx, case)
     R = RefIndex(sn)
-    text = ref.to_newick(sn)
+    text = short(ref.to_newick(sn), 400)
     q = 0
     ok, pdm = call(V, "Tree.phylogenetic_distance_matrix", tree.phylogenetic_distance_matrix)
     if not ok:
         return 1
     want, _ = ref.split_lengths(sn, False)
     refd = dict(((a, b2), R.between(R.leafpath[a], R.leafpath[b2])[0]) for a in labels for b2 in labels)
-    unit = ref.mk(shape, lens=[None] + [1] * (nnodes(shape) - 1))
+    unit = ref.mk(shape, lens=[None] + [1] * (nnodes(shape) - 1), labels=labels)
     wu, _ = ref.split_lengths(unit, False)
     for order in pool_orders(labels, case.get("orders", "basic")):
         if not force_order(V, pdm, order, "from_tree"):
@@ -827,7 +1002,7 @@ def judge_upgma(V, t2, tag, labels, want_heights, exact, text):
         V("upgma_tree|leaves|%s" % tag, "UPGMA tree has leaves %r, matrix has %r" % (ref.leaves(s2), labels))
         return
     if ref.rooted_clades(s2) != set(want_heights):
-        V("upgma_tree|clades|%s" % tag, "UPGMA tree %s does not have the clades of %s" % (ref.to_newick(s2), text))
+        V("upgma_tree|clades|%s" % tag, "UPGMA tree %s does not have the clades of %s" % (short(ref.to_newick(s2), 400), text))
         return
     hs = heights_of(s2)
     for cl, want in want_heights.items():
@@ -836,7 +1011,7 @@ def judge_upgma(V, t2, tag, labels, want_heights, exact, text):
             continue
         if not isinstance(got, list) or not all(same(g, want, exact) for g in got):
             V("upgma_tree|node-height|%s" % tag, "UPGMA tree %s: clade %s sits at heights %r above its children's tips, expected %r (%s)" % (
-                ref.to_newick(s2), sorted(cl), got, want, text))
+                short(ref.to_newick(s2), 400), sorted(cl), got, want, text))
             return
     if r2 is not True:
         V("upgma_tree|rooting|%s" % tag, "UPGMA tree is_rooted=%r (documented: rooted)" % (r2,))
@@ -892,19 +1067,19 @@ def rankings(shape):
 
 def check_upgma(case, ctx):
     """UPGMA on the distances of one ranked ultrametric tree, directly and via CSV."""
-    shape = tup(case["shape"])
+    shape = resolve_shape(case["shape"])
     n = case["n"]
-    labels = U.LABELS[:n]
+    labels = case_labels(case)
     hpat = case["hpat"]
     exact = hpat != NONDYADIC
     V = Viol(ctx, case)
     zero = case.get("zero")
     ztag = "|zero-distance-cherry" if zero is not None else ""
-    sn = ultrametric_snapshot(shape, case["ranks"], hpat, zero=zero)
+    sn = ultrametric_snapshot(shape, resolve_ranks(case["ranks"], shape), hpat, labels=labels, zero=zero)
     ns, bit = build.make_namespace(labels, "exact")
     tree = build.build_tree((True, sn), ns)
     R = RefIndex(sn)
-    text = ref.to_newick(sn)
+    text = short(ref.to_newick(sn), 400)
     hs = heights_of(sn)
     want = dict((cl, (0 if not isinstance(h, list) else h[0])) for cl, h in hs.items())
     if exact and any(isinstance(h, list) and any(x != h[0] for x in h) for h in hs.values()):
@@ -944,18 +1119,22 @@ def check_upgma(case, ctx):
 
 def reference_upgma(labels, dist):
     """Textbook UPGMA with exact arithmetic: distance between clusters = mean of the
-    original distances over all cross pairs.  Returns {clade: height} or None on a tie."""
+    original distances over all cross pairs (kept as the exact cross-pair SUM, which is additive
+    under union, divided by the number of cross pairs).  Returns {clade: height} or None on a tie."""
     clusters = [frozenset([l]) for l in labels]
     heights = dict((c, Fraction(0)) for c in clusters)
-
-    def D(a, b2):
-        return sum(Fraction(dist[(x, y)]) for x in a for y in b2) / (len(a) * len(b2))
+    S = {}
+    for i, a in enumerate(labels):
+        for b2 in labels[i + 1:]:
+            v = Fraction(dist[(a, b2)])
+            S[(frozenset([a]), frozenset([b2]))] = v
+            S[(frozenset([b2]), frozenset([a]))] = v
     while len(clusters) > 1:
         best = None
         tie = False
         for i, a in enumerate(clusters):
             for b2 in clusters[i + 1:]:
-                d = D(a, b2)
+                d = S[(a, b2)] / (len(a) * len(b2))
                 if best is None or d < best[0]:
                     best, tie = (d, a, b2), False
                 elif d == best[0]:
@@ -965,7 +1144,12 @@ def reference_upgma(labels, dist):
         d, a, b2 = best
         c = a | b2
         heights[c] = d / 2
-        clusters = [x for x in clusters if x not in (a, b2)] + [c]
+        clusters = [x for x in clusters if x not in (a, b2)]
+        for x in clusters:
+            v = S[(a, x)] + S[(b2, x)]
+            S[(c, x)] = v
+            S[(x, c)] = v
+        clusters.append(c)
     return heights
 
 
@@ -978,6 +1162,8 @@ def check_upgma_def(case, ctx):
     refd = dict(((a, b2), R.between(R.leafpath[a], R.leafpath[b2])[0]) for a in labels for b2 in labels)
     want = reference_upgma(labels, refd)
     if want is None:
+        if case.get("tl"):
+            raise AssertionError("harness: the large-representative length pattern must be tie-free")
         return 0
     ok, pdm = call(V, "Tree.phylogenetic_distance_matrix", tree.phylogenetic_distance_matrix)
     if not ok:
@@ -997,7 +1183,7 @@ def check_upgma_def(case, ctx):
         s2 = ref.snapshot(t2)[1]
         if ref.rooted_clades(s2) != set(want):
             V("upgma_tree|definition|clades", "UPGMA of the distances of %s gives %s; size-weighted average linkage gives clades %s" % (
-                ref.to_newick(sn), ref.to_newick(s2), sorted(sorted(c) for c in want)))
+                short(ref.to_newick(sn), 400), short(ref.to_newick(s2), 400), short(repr(sorted(sorted(c) for c in want)), 400)))
             continue
         hs = heights_of(s2)
         for cl, h in want.items():
@@ -1006,7 +1192,7 @@ def check_upgma_def(case, ctx):
                 continue
             if not isinstance(got, list) or not all(same(g, float(h), False) for g in got):
                 V("upgma_tree|definition|node-height", "UPGMA of the distances of %s gives %s: clade %s at %r, average linkage joins it at %r" % (
-                    ref.to_newick(sn), ref.to_newick(s2), sorted(cl), got, float(h)))
+                    short(ref.to_newick(sn), 400), short(ref.to_newick(s2), 400), sorted(cl), got, float(h)))
                 break
     return max(q, 1)
 
@@ -1016,7 +1202,7 @@ def check_upgma_def(case, ctx):
 
 def chunks(tier):
     b = bounds(tier)
-    out = []
+    out = big_chunks(tier)      # the long ones first
     for n in range(1, b["max_leaves"] + 1):
         ns = len(U.shapes(n))
         step = {1: 1, 2: 1, 3: 1, 4: 2, 5: 4, 6: 8}[n]
@@ -1043,7 +1229,69 @@ def chunks(tier):
     return out
 
 
+BIG_PARTS = ("pdm", "ndm", "mrca", "algo")
+
+
+def big_chunks(tier):
+    out = []
+    for name in BIG_NAMES:
+        for part in BIG_PARTS:
+            if part == "algo" and name not in BIG_ALGO:
+                continue
+            out.append({"kind": "big", "name": name, "part": part, "n": len(U.shape_leaves(big_shape(name))), "tier": tier})
+    return out
+
+
+def run_big(chunk, ctx):
+    name, part, n = chunk["name"], chunk["part"], chunk["n"]
+    base = {"n": n, "shape": name, "tl": True}
+
+    def done(kind, key, q):
+        ctx.case(("big", name, kind) + key, True, n=q)
+        ctx.count("big_tree_cases")
+        ctx.count("big_queries", q)
+    if part == "pdm":
+        q = check_pdm(dict(base, kind="pdm", lens="cyc123", ptag="cyc123", rooted=True, filters="family"), ctx)
+        done("pdm", ("cyc123",), q)
+        q = check_pdm(dict(base, kind="pdm", lens="partial", ptag="partial", rooted=False), ctx)
+        done("pdm", ("partial",), q)
+        if n <= 40:
+            q = check_pdm(dict(base, kind="pdm", lens="cyc123", ptag="cyc123", rooted=True, store=True), ctx)
+            done("pdm", ("store",), q)
+        for lens, rooted in (("cyc123", True), ("partial", False), ("partial", None)):
+            q = check_tm(dict(base, kind="tm", lens=lens, ptag=lens, rooted=rooted, pairs="family"), ctx)
+            done("tm", (lens, rooted), q)
+        q = check_csvmat(dict(base, kind="csvmat", lens="cyc123", rooted=True, route=0), ctx)
+        done("csvmat", (), q)
+        ctx.count("csv_round_trips")
+    elif part == "ndm":
+        q = check_ndm(dict(base, kind="ndm", lens="cyc123", ptag="cyc123", rooted=True), ctx)
+        done("ndm", (), q)
+    elif part == "mrca":
+        for rooted, cfgs in ((True, ("exact", "reversed", "extra_low")), (False, ("exact",))):
+            for cfg in cfgs:
+                for state in ("current", "refresh", "stale"):
+                    if state == "stale" and cfg == "extra_low":
+                        continue
+                    q = check_mrca(dict(base, kind="mrca", lens="unit", rooted=rooted, ns=cfg, state=state, subsets="family", all_routes=True), ctx)
+                    done("mrca", (rooted, cfg, state), q)
+    elif part == "algo":
+        q = check_nj(dict(base, kind="nj", lens="cyc12", rooted=False, unweighted=True, csv=[0], ltag="cyc12", orders="basic"), ctx)
+        done("nj", (), q)
+        for ranks in ("postorder", "levels"):
+            for hpat in ("int", "quarter"):
+                q = check_upgma(dict(base, kind="upgma", ranks=ranks, hpat=hpat, csv=[0] if hpat == "int" else [], orders="basic"), ctx)
+                done("upgma", (ranks, hpat), q)
+        # textbook definition on non-ultrametric input (cluster-size weighting shows only there)
+        q = check_upgma_def(dict(base, kind="upgmadef", lens="distinct", rooted=True), ctx)
+        done("upgmadef", (), q)
+    ctx.sample({"layer": "large representatives", "tree": name, "tips": n, "part": part}, 1)
+    return None
+
+
 def run_chunk(chunk, ctx):
+    if chunk["kind"] == "big":
+        return run_big(chunk, ctx)
     return {"dist": run_dist, "mrca": run_mrca, "nj": run_nj, "upgma": run_upgma, "upgmadef": run_upgmadef}[chunk["kind"]](chunk, ctx)
 
 
@@ -1285,7 +1533,7 @@ def run_upgmadef(chunk, ctx):
 def replay(case, ctx):
     k = case.get("kind")
     fn = {"pdm": check_pdm, "tm": check_tm, "ndm": check_ndm, "mrca": check_mrca, "mrca_start": check_mrca_start,
-          "nj": check_nj, "upgma": check_upgma, "upgmadef": check_upgma_def}.get(k)
+          "nj": check_nj, "upgma": check_upgma, "upgmadef": check_upgma_def, "csvmat": check_csvmat}.get(k)
     if fn is None:
         raise ValueError("unknown case kind %r" % k)
     fn(case, ctx)
